@@ -163,11 +163,8 @@ func (f c17Feat) normalize(avoid c17Avoid) {
 	if f["typedNonterm"] {
 		f["actions"] = true
 	}
-	if f["tokenStream"] && f["typedToken"] {
-		f["typedToken"] = false // TokenStream has no Value()
-	}
-	if f["tokenStream"] && (f["typedNonterm"] || f["actions"]) {
-		f["typedNonterm"], f["actions"], f["midRule"] = false, false, false
+	if f["tokenStream"] && f["typedNonterm"] && avoid["[C17-stream-value]"] {
+		f["typedNonterm"] = false // the shift stores stream.Value(), which no template declares
 	}
 }
 
@@ -586,6 +583,47 @@ func c17Widths(c *Ctx) {
 	}
 }
 
+// c17MarkerTM: one state marker at the same position of k alternatives `t_i .m tail_i` whose tails repeat, with the
+// terminals declared in a random order: the marker sits in k states, minimizeDFA merges those with equal tails, and
+// the merged ones are in general not adjacent in state order.
+func c17MarkerTM(r *rand.Rand, name string, k int, minimize, eventBased, optimize bool) string {
+	var sb strings.Builder
+	fmt.Fprintf(&sb, "language %s(go);\n\nlang = %q\npackage = \"gp/%s\"\n", name, name, name)
+	if eventBased {
+		sb.WriteString("eventBased = true\n")
+	}
+	if minimize {
+		sb.WriteString("minimizeDFA = true\n")
+	}
+	if optimize {
+		sb.WriteString("optimizeTables = true\n")
+	}
+	sb.WriteString("\n:: lexer\n\nWhiteSpace: /[ \\t\\n]+/ (space)\n")
+	for _, i := range r.Perm(k) {
+		fmt.Fprintf(&sb, "'t%d': /t%d/\n", i, i)
+	}
+	sb.WriteString("'x': /x/\n'y': /y/\n'z': /z/\n\n:: parser\n\n%input input;\n\ninput :\n    item+ ;\n\nitem")
+	if eventBased {
+		sb.WriteString(" -> Item")
+	}
+	sb.WriteString(" :\n")
+	tails := []string{"'x'", "'y'", "'z'", "'x' 'y'"}
+	nt := 2 + r.Intn(2)
+	for i := 0; i < k; i++ {
+		sep := "  | "
+		if i == 0 {
+			sep = "    "
+		}
+		tail := tails[r.Intn(nt)]
+		if i < 3 { // the shape of the smallest witness: tails x, y, x
+			tail = tails[i%2]
+		}
+		fmt.Fprintf(&sb, "%s't%d' .afterHead %s\n", sep, i, tail)
+	}
+	sb.WriteString(";\n")
+	return sb.String()
+}
+
 // c17LexShapeTM: lexer shapes. bit 0: a (space) rule; bit 1: a rule with a code action; bit 2: typed token;
 // bit 3: class rule with keywords; bit 4: explicit invalid_token rule; bit 5: backtracking; bit 6: a parser on top;
 // bit 7: start conditions; bit 8: tokenLine off; bit 9: scanBytes.
@@ -805,6 +843,20 @@ func c17CheckAxioms(g *grammar.Grammar) []string {
 		if len(a.Report) > 0 && p.Types == nil {
 			bad = append(bad, "$act.Report→.Parser.Types")
 			break
+		}
+	}
+	if p.Tables != nil {
+		// not an implication of the table but a data invariant the templates rely on: a marker's states become
+		// the keys of a map literal (`var <name>States = map[int]bool{…}`), which must be distinct
+		for _, m := range p.Tables.Markers {
+			seen := map[int]bool{}
+			for _, st := range m.States {
+				if seen[st] {
+					bad = append(bad, fmt.Sprintf("states of marker .%s are distinct (duplicate %d in %v: duplicate key in the generated map literal)", m.Name, st, m.States))
+					break
+				}
+				seen[st] = true
+			}
 		}
 	}
 	if p.Tables != nil && p.HasActionsWithReport() && p.Types == nil {
@@ -1054,6 +1106,18 @@ var c17Classes = []c17Class{
 			return c17Tiny("w", "eventBased = true\ntokenStream = true\ncancellable = true\ncancellableFetch = true\n", c17TinyLexer,
 				"%input S;\n\nS -> Root : (?= L) 'a' 'b' | (?= !L) 'a' 'a' ;\nL : 'a' 'b' ;\n"), c17Feat{"eventBased": true, "tokenStream": true, "cancellable": true, "cancellableFetch": true, "lookahead": true}
 		}},
+	{Token: "[C17-stream-value]", Guard: true, Expect: `stream\.Value undefined`,
+		What: "tokenStream = true with a typed nonterminal: the shift stores `stream.Value()` but no template declares TokenStream.Value",
+		Witness: func() (string, c17Feat) {
+			return c17Tiny("w", "eventBased = true\ntokenStream = true\n", "'a': /a/\n'+': /\\+/\n",
+				"%input E;\n\nE {int} -> E :\n    E '+' 'a' { $$ = $E + 1 }\n  | 'a' { $$ = 1 }\n;\n"), c17Feat{"eventBased": true, "tokenStream": true, "typedNonterm": true, "actions": true}
+		}},
+	{Token: "[C17-lookahead-user-input]", Expect: `undefined: At[A-Z]`,
+		What: "a nonterminal that is both a user `%input X no-eoi` and the target of a lookahead predicate `(?= X)`: applyRule calls AtX, which lookaheadMethods declares for SYNTHETIC no-eoi inputs only",
+		Witness: func() (string, c17Feat) {
+			return c17Tiny("w", "eventBased = true\n", c17TinyLexer,
+				"%input S, X no-eoi;\n\nS -> Root : (?= X) 'a' 'b' | (?= !X) 'a' 'a' ;\nX -> Xn : 'a' 'b' ;\n"), c17Feat{"eventBased": true, "lookahead": true, "multiInput": true, "noEoiInput": true}
+		}},
 	{Token: "[C17-typed-ref-after-instantiate]", Expect: `mismatched types interface\{\} and int|operator . not defined on .*interface`,
 		What: "a template flag anywhere in the grammar and a typed nonterminal that refers to itself in a semantic action: the reference loses its type ($left expands to stack[..].value without the type assertion)",
 		Witness: func() (string, c17Feat) {
@@ -1232,6 +1296,12 @@ func c17(c *Ctx) {
 		}
 		close(wideDone)
 	}()
+	// (3) state markers × minimizeDFA: one marker in several states of which non-adjacent ones merge
+	for i := 0; i < c.N(6, 24); i++ {
+		k := 3 + c.Rng.Intn(5)
+		minimize := i%3 != 2
+		addFam("marker", c17MarkerTM(c.Rng, "w", k, minimize, evb, c.Rng.Intn(3) == 0), c17Feat{"marker": true, "minimizeDFA": minimize, "eventBased": evb})
+	}
 	// (2) lexer shapes: (space rule?) × (code action?) always, the other lexer dimensions at random
 	for i := 0; i < c.N(10, 40); i++ {
 		m := i & 3 // bits 0, 1: all four combinations, repeatedly
@@ -1251,6 +1321,7 @@ func c17(c *Ctx) {
 	fb.build(c)
 	for _, cs := range fb.cases {
 		c.Count(cs.Kind + "-" + cs.Status)
+		c17ReportAxioms(c, cs)
 		if cs.Kind == "width" || cs.Kind == "width16" {
 			for _, kv := range strings.Fields(cs.Size) {
 				c.Count(cs.Kind + "-" + kv)
@@ -1363,9 +1434,7 @@ func c17(c *Ctx) {
 		b.build(c)
 		for _, cs := range b.cases {
 			c.Count(cs.Kind + "-" + cs.Status)
-			if len(cs.Axioms) > 0 {
-				c.Violate("a trusted implication of Facts/ExpectC17.lean does not hold on this compiled grammar: "+strings.Join(cs.Axioms, "; "), c17Input(cs))
-			}
+			c17ReportAxioms(c, cs)
 			switch cs.Status {
 			case "reject":
 				if len(c.Notes) < 6 && os.Getenv("TMH_DEBUG") != "" {
@@ -1455,6 +1524,14 @@ func sortedStrKeys(m map[string]string) []string {
 	return ks
 }
 
+// c17ReportAxioms reports what c17CheckAxioms found on the compiled grammar: a trusted implication of
+// Facts/ExpectC17.lean or a data invariant the templates rely on does not hold.
+func c17ReportAxioms(c *Ctx, cs *c17Case) {
+	if len(cs.Axioms) > 0 {
+		c.Violate("an assumption of the templates about compiled grammars does not hold (trusted implication of Facts/ExpectC17.lean or data invariant): "+strings.Join(cs.Axioms, "; "), c17Input(cs))
+	}
+}
+
 func c17Input(cs *c17Case) string {
 	return fmt.Sprintf("kind=%s features=[%s]\n%s", cs.Kind, cs.Feat, cs.Text)
 }
@@ -1484,6 +1561,8 @@ var c17Signatures = []struct{ token, re string }{
 	{"[C17-stream-tokenline]", `s\.lexer\.tokenLine undefined`},
 	{"[C17-nodeprefix]", `undefined: Nd[A-Z]`},
 	{"[C17-stream-cancellablefetch]", `not enough arguments in call to stream\.next`},
+	{"[C17-stream-value]", `stream\.Value undefined`},
+	{"[C17-lookahead-user-input]", `undefined: At[A-Z]`},
 	{"[C17-ast-without-selector]", `/selector is not in std|no required module provides package gp/[a-z0-9]+/selector`},
 }
 
